@@ -57,6 +57,13 @@ func init() {
 	p("vBool", func(fr *frame, a []value) value { return fr.i.newInput(fr.primName(a[0]), 0) })
 	p("vU32", func(fr *frame, a []value) value { return fr.i.newInput(fr.primName(a[0]), 32) })
 	p("vU64", func(fr *frame, a []value) value { return fr.i.newInput(fr.primName(a[0]), 64) })
+	p("vF64", func(fr *frame, a []value) value {
+		// a non-negative, non-NaN float64 (finite or +Inf): bits <= 0x7ff0000000000000
+		i := fr.i
+		x := i.newInput(fr.primName(a[0]), 64)
+		i.assume(i.tt.Bin(OpULe, x, i.tt.Const(64, 0x7ff0000000000000)))
+		return symf64{x}
+	})
 	p("vInt", func(fr *frame, a []value) value {
 		i := fr.i
 		x := i.newInput(fr.primName(a[0]), 64)
